@@ -426,7 +426,7 @@ The relation `2^(b·as)·X = 2^k·2^(b·rs)·Y + e + q·2^(b·rs+b·as)` reads `
 
 /-- head-room instances used by the examples (radix `2^4`) -/
 theorem hr4 : NormL.HeadRoom 64 4 0 (2 ^ 62) := ⟨by norm_num, by norm_num, by norm_num, by norm_num, by norm_num⟩
-theorem hr4' : NormL.HeadRoom 64 4 0 (2 ^ 60) := ⟨by norm_num, by norm_num, by norm_num, by norm_num, by norm_num⟩
+theorem hr4b : NormL.HeadRoom 64 4 0 (2 ^ 60) := ⟨by norm_num, by norm_num, by norm_num, by norm_num, by norm_num⟩
 
 /-- tolerance of one left shift: exact when the shifted operand fits the result -/
 def lshTol (b rs as k : Nat) : Int := if b * as ≤ b * rs + k then 0 else 2 ^ (b * as)
@@ -511,7 +511,7 @@ theorem lsh_add_phase {N : Nat} {res a : GLWE} (hr : GWF N res) (ha : GWF N a) (
 
 example : ∃ r', glweLshAdd 2 exRes2 exA 5 = .ok r' := by
   obtain ⟨r', h, _⟩ := lsh_add_phase (N := 2) (res := exRes2) (a := exA) (by decide) (by decide) rfl (by decide)
-    (H := 2 ^ 60) hr4' (by decide)
+    (H := 2 ^ 60) hr4b (by decide)
     (by intro c hc l hl x hx; have : |x| ≤ 8 := by revert x l c; decide
         exact this.trans (by norm_num))
     (by intro c hc l hl x hx; have : |x| ≤ 8 := by revert x l c; decide
@@ -552,7 +552,7 @@ theorem lsh_sub_phase {N : Nat} {res a : GLWE} (hr : GWF N res) (ha : GWF N a) (
 
 example : ∃ r', glweLshSub 2 exRes2 exPt 9 = .ok r' := by
   obtain ⟨r', h, _⟩ := lsh_sub_phase (N := 2) (res := exRes2) (a := exPt) (by decide) (by decide) rfl (by decide)
-    (H := 2 ^ 60) hr4' (by decide)
+    (H := 2 ^ 60) hr4b (by decide)
     (by intro c hc l hl x hx; have : |x| ≤ 8 := by revert x l c; decide
         exact this.trans (by norm_num))
     (by intro c hc l hl x hx; have : |x| ≤ 8 := by revert x l c; decide
